@@ -116,13 +116,14 @@ Theorem C08_create_column_plain d :
 Proof. exact (create_column_plain d). Qed.
 Print Assumptions C08_create_column_plain.
 
-(* New(data, ColumnOrder(order), Enums(enums)), for every input whose effective column order (the given one, or
-   the sorted keys) has no repeated name:
+(* New(data, ColumnOrder(order), Enums(enums)), for EVERY input (the effective column order is the given one, or
+   the sorted keys):
 
    new_valid (Proofs/NewProofs.v, executable) =
         every key is a legal name
      && the order has as many names as there are keys && every name of the order is a key
-        (C08_new_order_permutation: together = the order is a permutation of the keys)
+        && no name occurs twice in the order
+        (C08_new_valid_order_permutation: together = the order is a permutation of the keys)
      && createColumn succeeds for every column (supported type, count >= 0, enum factory accepts the values)
         and every column has the length of the FIRST column in order (a first column of length 0 followed by
         longer ones is invalid)
@@ -132,7 +133,7 @@ Print Assumptions C08_create_column_plain.
    column), and denotes the table whose column names are the order and whose column n holds exactly the cells
    of data[n] — as enum column iff n is string data declared in Enums. *)
 Theorem C08_new_ok data order enums :
-  NoDup (new_order data order) -> new_valid data order enums = true ->
+  new_valid data order enums = true ->
   exists f t, new_frame data order enums = Ok f /\ ferr f = false /\ wf_frame f = true
     /\ ix f = seq 0 (new_len data order enums) /\ abs f = Ok t
     /\ tnames t = new_order data order /\ length (trows t) = new_len data order enums
@@ -146,24 +147,30 @@ Print Assumptions C08_new_ok.
 (* INVALID: Err (the frame without columns), never a frame, never a panic. Together with C08_new_ok:
    New returns a frame without Err IF AND ONLY IF the input is valid. *)
 Theorem C08_new_rejects data order enums :
-  NoDup (new_order data order) -> new_valid data order enums = false ->
+  new_valid data order enums = false ->
   new_frame data order enums = Ok (mkFrame [] [] true).
 Proof. exact (new_frame_rejects data order enums). Qed.
 Print Assumptions C08_new_rejects.
 
 Theorem C08_new_iff data order enums :
-  NoDup (new_order data order) ->
-  (new_valid data order enums = true <-> exists f, new_frame data order enums = Ok f /\ ferr f = false).
-Proof.
-  intro Hnd. split.
-  - intro Hv. destruct (new_frame_table data order enums Hnd Hv) as [f [t [H1 [H2 _]]]]. exists f. auto.
-  - intros [f [Hf He]]. destruct (new_valid data order enums) eqn:Hv; [reflexivity|].
-    rewrite (new_frame_rejects data order enums Hnd Hv) in Hf. inversion Hf; subst. discriminate.
-Qed.
+  new_valid data order enums = true <-> exists f, new_frame data order enums = Ok f /\ ferr f = false.
+Proof. exact (new_frame_iff data order enums). Qed.
 Print Assumptions C08_new_iff.
 
-(* without ColumnOrder: byte-wise alphabetical order, every key exactly once; and the premise of the theorems
-   above holds because the keys of a Go map are distinct *)
+(* a ColumnOrder that names a column twice is rejected (before the repair such an order with as many entries as
+   there are keys passed both checks: the repeated column appeared twice, another key was silently left out) *)
+Theorem C08_new_repeated_order_rejected data order enums :
+  ~ NoDup (new_order data order) -> new_frame data order enums = Ok (mkFrame [] [] true).
+Proof. exact (new_frame_repeated_order_rejected data order enums). Qed.
+Print Assumptions C08_new_repeated_order_rejected.
+
+(* a valid input's order is a permutation of the keys *)
+Theorem C08_new_valid_order_permutation data order enums :
+  new_valid data order enums = true -> Permutation (new_order data order) (map fst data).
+Proof. exact (new_valid_order_permutation data order enums). Qed.
+Print Assumptions C08_new_valid_order_permutation.
+
+(* without ColumnOrder: byte-wise alphabetical order, every key exactly once (the keys of a Go map are distinct) *)
 Theorem C08_default_order_sorted (l : list bytes) : Sorted names_le (sort_names l) /\ Permutation (sort_names l) l.
 Proof. exact (sort_names_sorted l). Qed.
 Print Assumptions C08_default_order_sorted.
@@ -209,10 +216,14 @@ Example C08_new_invalid_examples :
   /\ new_valid [([65%N], DOther)] [] [] = false.                  (* unsupported data type *)
 Proof. repeat split; vm_compute; reflexivity. Qed.
 
-(* NOT covered by the theorems above (premise NoDup): a ColumnOrder that repeats a name and has as many entries as
-   there are keys passes both checks of New; the repeated column appears twice and another key is silently left out,
-   its length never compared (model and implementation agree on this; see the report). *)
-Example C08_new_repeated_order_accepted :
-  new_frame [([65%N], DInts [1]%Z); ([66%N], DInts [1; 2; 3]%Z)] [[65%N]; [65%N]] []
-  = Ok (mkFrame [([65%N], ICol [1]%Z); ([65%N], ICol [1]%Z)] [0] false).
-Proof. vm_compute. reflexivity. Qed.
+(* the premise of C08_new_repeated_order_rejected on a concrete input: as many entries as there are keys, every
+   entry a key, one of them twice *)
+Example C08_new_repeated_order_example :
+  ~ NoDup (new_order [([65%N], DInts [1]%Z); ([66%N], DInts [1; 2; 3]%Z)] [[65%N]; [65%N]])
+  /\ new_valid [([65%N], DInts [1]%Z); ([66%N], DInts [1; 2; 3]%Z)] [[65%N]; [65%N]] [] = false
+  /\ new_frame [([65%N], DInts [1]%Z); ([66%N], DInts [1; 2; 3]%Z)] [[65%N]; [65%N]] []
+     = Ok (mkFrame [] [] true).
+Proof.
+  split; [|split; vm_compute; reflexivity].
+  simpl. intro H. inversion H as [|? ? Hn _]; subst. apply Hn. left. reflexivity.
+Qed.
